@@ -6,3 +6,4 @@ pub mod symver;
 pub mod elf;
 pub mod mutate;
 pub mod object;
+pub mod adversarial;
